@@ -89,7 +89,49 @@ func rulesC14(w *World, o *Out) {
 				continue
 			}
 			// a fresh branch per message: the next processing is not reached without branching again
-			fresh := ReachAvoiding(cp, ps.Instr, map[ssa.Instruction]bool{ps.Instr: true}, siteSet(caches)) == nil
+			// (judged in the function that holds the processing call: the loop may live in a helper)
+			holder := ps.Instr.Parent()
+			var hCaches []Site
+			for _, c := range caches {
+				if c.Instr.Parent() == holder {
+					hCaches = append(hCaches, c)
+				}
+			}
+			fresh := reachAvoidingRaw(holder, ps.Instr, map[ssa.Instruction]bool{ps.Instr: true}, siteSet(hCaches)) == nil
+			// a message that cannot be processed is skipped, the rest of its queue is still processed in this block
+			skips := false
+			if hf := ps.Instr.Parent(); hf != nil {
+				for _, b := range hf.Blocks {
+					iff, isIf := b.Instrs[len(b.Instrs)-1].(*ssa.If)
+					if !isIf {
+						continue
+					}
+					f := factOf(iff.Cond, true)
+					if f.Kind != FNonNil && f.Kind != FNil {
+						continue
+					}
+					if f.V == nil || !isErrorType(f.V.Type()) {
+						continue
+					}
+					from := false
+					for _, c := range callsBehind(f.V) {
+						if ssa.Instruction(c) == ps.Instr {
+							from = true
+						}
+					}
+					if !from {
+						continue
+					}
+					errSucc := b.Succs[0]
+					if f.Kind == FNil {
+						errSucc = b.Succs[1]
+					}
+					if ReachFromTop(hf, errSucc, map[ssa.Instruction]bool{ps.Instr: true}, nil) != nil {
+						skips = true
+					}
+				}
+			}
+			o.Check("C14.R5", "CheckAndProcessEstimatedMessages|a failing message does not stop the rest of its queue", skips, pos, "from the error edge of checkAndProcessEstimatedMessage the loop must go on to the next message; returning there starves every younger message of the queue of its estimate and fees, block after block")
 			o.Check("C14.R5", "CheckAndProcessEstimatedMessages|one cache context per message", fresh, pos, "a branch shared by several messages commits the partial writes (elected estimate without fees) of a message whose processing failed")
 			// commit of that branch only under err == nil of this processing
 			okCommit, nCommit := true, 0
